@@ -564,6 +564,8 @@ class Engine:
             return v.t
         if isinstance(v, tuple):
             return tuple(self.resolve(x, heap) for x in v)
+        if isinstance(v, dict):
+            return {key: self.resolve(x, heap) for key, x in v.items()}
         if isinstance(v, Row):
             return RowView(self, v, heap)
         if isinstance(v, Vec):
